@@ -323,8 +323,16 @@ func (w *c14World) compare(op c14Op, now int64, evictCands []c14RefKey, created 
 			}
 			return fmt.Sprintf("pending message %s/%d missing from the table", k.src, k.id)
 		}
-		if int(re.total) != en.total || len(re.chunks) != en.total || re.received != len(en.chunks) {
-			return fmt.Sprintf("message %s/%d: table says total=%d received=%d, reference total=%d received=%d", k.src, k.id, re.total, re.received, en.total, len(en.chunks))
+		// (chunks received so far are counted from the slots: the entry's own counter, however it is
+		// kept, is private bookkeeping the completion behaviour below already judges)
+		reReceived := 0
+		for _, c := range re.chunks {
+			if c != nil {
+				reReceived++
+			}
+		}
+		if int(re.total) != en.total || len(re.chunks) != en.total || reReceived != len(en.chunks) {
+			return fmt.Sprintf("message %s/%d: table says total=%d received=%d, reference total=%d received=%d", k.src, k.id, re.total, reReceived, en.total, len(en.chunks))
 		}
 		for i := 0; i < en.total; i++ {
 			want, has := en.chunks[i]
@@ -353,8 +361,6 @@ func (w *c14World) key() (string, string) {
 		b = strconv.AppendInt(b, int64(k.msgID), 10)
 		b = append(b, ":t"...)
 		b = strconv.AppendInt(b, int64(en.total), 10)
-		b = append(b, ":r"...)
-		b = strconv.AppendInt(b, int64(en.received), 10)
 		b = append(b, ":d"...)
 		b = strconv.AppendInt(b, int64(en.deadline.Sub(vtime.Epoch))-now, 10)
 		b = append(b, ':')
